@@ -63,6 +63,29 @@ type Media struct {
 	Index *SimBlockDevice
 	Dir   *SimDirectory
 	Rand  *DetRand
+	// Journal is the global order of logged I/O operations since the media were created / cloned.
+	Journal []JEntry
+	// Base is a snapshot of the images and files at the time this Media value was created or cloned
+	// (what the medium looked like when the current run started).
+	Base *Media
+}
+
+func (m *Media) wire() {
+	m.Data.Journal, m.Data.JKind = &m.Journal, 'D'
+	if m.Index != nil {
+		m.Index.Journal, m.Index.JKind = &m.Journal, 'I'
+	}
+	m.Dir.Journal = &m.Journal
+}
+
+func (m *Media) snapshot() *Media {
+	b := &Media{Rand: &DetRand{Counter: m.Rand.Counter}}
+	b.Data = m.Data.Clone()
+	if m.Index != nil {
+		b.Index = m.Index.Clone()
+	}
+	b.Dir = m.Dir.Clone()
+	return b
 }
 
 // NewMedia creates blank media for a geometry.
@@ -73,6 +96,8 @@ func NewMedia(g Geometry) *Media {
 		m.Index = NewDevice("index", g.IndexSlots*local.BlockDeviceBackedLocationRecordSize, 1, g.IndexGates, false)
 	}
 	m.Dir = NewDirectory(g.DirGates)
+	m.wire()
+	m.Base = m.snapshot()
 	return m
 }
 
@@ -84,6 +109,8 @@ func (m *Media) Clone() *Media {
 		c.Index = m.Index.Clone()
 	}
 	c.Dir = m.Dir.Clone()
+	c.wire()
+	c.Base = c.snapshot()
 	return c
 }
 
